@@ -102,6 +102,17 @@ func opWitness(w *World, op *Op) {
 	}
 	wit := &Witness{Token: tok, EndMode: op.Ref, Seq: seq, Sink: NewWallet("sink", len(w.Sent)).Addr}
 	data := Words(op.Ref)
+	record := func(to common.Address, in []byte) {
+		data = append(data, Words(to, len(in))...)
+		data = append(data, in...)
+		data = append(data, make([]byte, (32-len(in)%32)%32)...)
+	}
+	rep, okR := w.Labels["rep"]
+	if strings.Contains(op.Mut, "tb") && okR {
+		// before the legs: a frame tries to pay the (still empty) sink a value nobody can afford - the call fails, yet the
+		// EVM has looked at the sink (new-account gas rule)
+		record(rep, Words(wit.Sink, new(big.Int).Lsh(big.NewInt(1), 200), 1, 0))
+	}
 	for k, spec := range op.A {
 		parts := strings.SplitN(spec, ":", 2)
 		kind, chain := parts[0], ""
@@ -137,10 +148,13 @@ func opWitness(w *World, op *Op) {
 		plan := w.PlanChain(seq, hops, target, inner)
 		leg.Caller = plan.Caller
 		wit.Legs = append(wit.Legs, leg)
-		pad := (32 - len(plan.Data)%32) % 32
-		data = append(data, Words(plan.To, len(plan.Data))...)
-		data = append(data, plan.Data...)
-		data = append(data, make([]byte, pad)...)
+		record(plan.To, plan.Data)
+		if strings.Contains(op.Mut, "tm") {
+			record(wit.Sink, nil) // the sink is touched by a plain zero-value call between the legs
+		}
+	}
+	if strings.Contains(op.Mut, "ta") {
+		record(wit.Sink, nil) // ... and after the last one
 	}
 	gas := op.Gas
 	if gas == "" {
@@ -373,6 +387,9 @@ func genWitness(rng *rand.Rand, g *GenesisSpec) Op {
 		legs = append(legs, kind+":"+chain)
 	}
 	op := Op{K: "wit", W: rng.IntN(g.Wallets), A: legs, Ref: pick(rng, 0, 0, 0, 0, 1, 2)}
+	// EVM-level looks at and touches of the sink around the precompile payments (EIP-158 bookkeeping of an account
+	// whose balance is changed behind the StateDB's back, by the bank module)
+	op.Mut = pick(rng, "", "", "ta", "tb+ta", "tb+tm", "tb+tm+ta", "tm")
 	if rng.IntN(3) == 0 {
 		// gas sweep: execution dies at an arbitrary instruction of an arbitrary frame
 		op.Gas = fmt.Sprintf("i+%d", 20000+rng.IntN(300000*n))
